@@ -215,6 +215,9 @@ def isNumeric (sys : System) (s : Bytes) : Option Int :=
 
 def sgnInt (a b : Int) : Int := if a < b then -1 else if a > b then 1 else 0
 
+/-- `if s != 0 { return s }; <rest>`: the first non-zero sign decides. -/
+@[inline] def thenInt (s r : Int) : Int := if s != 0 then s else r
+
 /-- Go string comparison (`<`, `strings.Compare`): lexicographic on bytes. -/
 def cmpBytes : Bytes → Bytes → Int
   | [], [] => 0
